@@ -11,6 +11,8 @@ import (
 	"strconv"
 	"strings"
 	"sync"
+	"syscall"
+	"time"
 )
 
 type workerOut struct {
@@ -99,6 +101,7 @@ func (r *Run) RunItems(items []string, work func(item string)) {
 	outs := make([]workerOut, N)
 	fails := make([]string, N)
 	crashes := make([]string, N)
+	hangs := make([]string, N)
 	for k := 0; k < N; k++ {
 		wg.Add(1)
 		go func(k int) {
@@ -109,7 +112,34 @@ func (r *Run) RunItems(items []string, work func(item string)) {
 				"VERIF_TIER="+r.Tier)
 			tail := &tailBuf{max: 256 << 10}
 			cmd.Stderr = io.MultiWriter(os.Stderr, tail)
-			if err := cmd.Run(); err != nil {
+			if err := cmd.Start(); err != nil {
+				fails[k] = err.Error()
+				return
+			}
+			done := make(chan error, 1)
+			go func() { done <- cmd.Wait() }()
+			// workers stop by themselves at the internal deadline (between items); one that is still alive long after
+			// it is stuck inside a single call. Ask the Go runtime for its goroutine dump, then kill it.
+			grace := r.deadline.Sub(r.start)
+			if grace < 5*time.Minute {
+				grace = 5 * time.Minute
+			}
+			var err error
+			select {
+			case err = <-done:
+			case <-time.After(time.Until(r.deadline) + grace):
+				_ = cmd.Process.Signal(syscall.SIGQUIT)
+				select {
+				case <-done:
+				case <-time.After(20 * time.Second):
+					_ = cmd.Process.Kill()
+					<-done
+				}
+				fails[k] = "still running " + grace.String() + " after the internal deadline"
+				hangs[k] = tail.String()
+				return
+			}
+			if err != nil {
 				fails[k] = err.Error()
 				crashes[k] = tail.String()
 				return
@@ -132,6 +162,11 @@ func (r *Run) RunItems(items []string, work func(item string)) {
 		// A worker that died of a panic or fatal error raised inside the code under test (typically in a goroutine
 		// the code started itself, where no recover of the harness can reach) is a finding about that code: the
 		// process that runs it would have crashed. Anything else is a harness failure, never silently ignored.
+		if fn, report := hangInCodeUnderTest(hangs[k]); fn != "" {
+			r.Violation("process-hang:"+fn, "a call into the code under test did not return (worker of shard "+strconv.Itoa(k)+", "+f+"); goroutine at the time:\n"+report, map[string]interface{}{"hang": fn})
+			r.Cap("a worker process hung; its share of the enumeration is incomplete")
+			continue
+		}
 		if fn, report := crashInCodeUnderTest(crashes[k]); fn != "" {
 			r.Violation("process-crash:"+fn, "the process running the code under test crashed (worker of shard "+strconv.Itoa(k)+"):\n"+report, map[string]interface{}{"crash": fn})
 			r.Cap("a worker process crashed; its share of the enumeration is incomplete")
@@ -184,6 +219,55 @@ func (t *tailBuf) String() string {
 	t.mu.Lock()
 	defer t.mu.Unlock()
 	return string(t.b)
+}
+
+// hangInCodeUnderTest reads the goroutine dump a stuck worker printed on SIGQUIT and returns the innermost
+// repository function of a goroutine that was running or runnable (i.e. computing, not waiting) with a
+// repository frame on top of its stack.
+func hangInCodeUnderTest(stderr string) (string, string) {
+	i := strings.LastIndex(stderr, "SIGQUIT: quit")
+	if i < 0 {
+		return "", ""
+	}
+	return hangInDump(stderr[i:])
+}
+
+// hangInDump does the same on a goroutine dump (runtime.Stack or SIGQUIT format).
+func hangInDump(dump string) (string, string) {
+	for _, g := range strings.Split(dump, "\n\n") {
+		g = strings.TrimSpace(g)
+		if !strings.HasPrefix(g, "goroutine ") {
+			continue
+		}
+		lines := strings.Split(g, "\n")
+		if !strings.Contains(lines[0], "[running") && !strings.Contains(lines[0], "[runnable") {
+			continue
+		}
+		for _, ln := range lines[1:] {
+			ln = strings.TrimSpace(ln)
+			if ln == "" || strings.HasPrefix(ln, "/") || strings.HasPrefix(ln, "runtime.") || strings.HasPrefix(ln, "runtime/") || strings.HasPrefix(ln, "syscall.") || strings.HasPrefix(ln, "os/signal") {
+				continue
+			}
+			if strings.HasPrefix(ln, "github.com/LiskHQ/lisk-engine/pkg/") && !strings.Contains(ln, "/pkg/verifrt/") {
+				fn := strings.TrimPrefix(ln, "github.com/LiskHQ/lisk-engine/pkg/")
+				if p := strings.Index(fn, "(0x"); p > 0 {
+					fn = fn[:p]
+				}
+				if p := strings.LastIndex(fn, "({"); p > 0 {
+					fn = fn[:p]
+				}
+				if p := strings.Index(fn, "(...)"); p > 0 {
+					fn = fn[:p]
+				}
+				if len(lines) > 30 {
+					lines = lines[:30]
+				}
+				return fn, strings.Join(lines, "\n")
+			}
+			break // the innermost user frame is not in the repository
+		}
+	}
+	return "", ""
 }
 
 // crashInCodeUnderTest looks for a Go runtime crash report (panic / fatal error) in a dead worker's stderr whose
